@@ -24,6 +24,11 @@ type c14Case struct {
 	Mechs  []string `json:"mechs"`
 	Reply  string   `json:"reply"` // success failure other
 	Var    int      `json:"var"`
+	// TLS: the connection uses STARTTLS and PreMechs is what the server advertised before it (Mechs after it)
+	TLS      bool     `json:"tls,omitempty"`
+	PreMechs []string `json:"pre_mechs,omitempty"`
+	// Prior: an earlier connection of the same Client succeeded against this mechanism list and was lost
+	Prior []string `json:"prior,omitempty"`
 }
 
 func genC14(t *rapid.T) c14Case {
@@ -69,6 +74,28 @@ func genC14(t *rapid.T) c14Case {
 		pos := rapid.IntRange(0, len(c.Mechs)).Draw(t, "pos")
 		c.Mechs = append(c.Mechs[:pos], append([]string{m}, c.Mechs[pos:]...)...)
 	}
+	pick := func(label string) []string {
+		var l []string
+		k := rapid.IntRange(0, 3).Draw(t, label+"N")
+		for i := 0; i < k; i++ {
+			l = append(l, rapid.SampledFrom([]string{"PLAIN", "X-OAUTH2", "SCRAM-SHA-1", "ANONYMOUS"}).Draw(t, label))
+		}
+		return l
+	}
+	switch rapid.IntRange(0, 5).Draw(t, "multi") {
+	case 0: // the list changes across STARTTLS
+		c.TLS = true
+		c.PreMechs = pick("pre")
+		if c.PreMechs == nil {
+			c.PreMechs = []string{}
+		}
+	case 1: // the same client connected before, against another list
+		m := "PLAIN"
+		if c.Token {
+			m = "X-OAUTH2"
+		}
+		c.Prior = append([]string{m}, pick("prior")...)
+	}
 	c.Reply = rapid.SampledFrom([]string{"success", "success", "failure", "other"}).Draw(t, "reply")
 	c.Var = rapid.IntRange(0, 7).Draw(t, "var")
 	return c
@@ -76,7 +103,7 @@ func genC14(t *rapid.T) c14Case {
 
 func runC14(c c14Case) vh.Result {
 	var res vh.Result
-	script := &peer.Script{Mechs: c.Mechs}
+	script := &peer.Script{Mechs: c.Mechs, OfferTLS: c.TLS, MechsPreTLS: c.PreMechs}
 	switch c.Reply {
 	case "failure":
 		script.Dev = map[string]peer.Dev{"auth": {Kind: "failure", Variant: c.Var}}
@@ -85,7 +112,14 @@ func runC14(c c14Case) vh.Result {
 	}
 	outc := make(chan *peer.Outcome, 1)
 	var conn *peer.Conn
+	priorDone := make(chan struct{}, 1)
 	srv, err := peer.Listen(func(pc *peer.Conn) {
+		if c.Prior != nil && pc.Index == 0 {
+			pc.Negotiate(&peer.Script{Mechs: c.Prior}, 10*time.Second)
+			priorDone <- struct{}{}
+			pc.GracefulClose(time.Second)
+			return
+		}
 		conn = pc
 		o := pc.Negotiate(script, 10*time.Second)
 		outc <- o
@@ -104,8 +138,28 @@ func runC14(c c14Case) vh.Result {
 		res.Fail("harness-newclient", "NewClient(%q): %v", c.Local, err)
 		return res
 	}
+	if c.Prior != nil {
+		res.Label("reconnection-with-other-list")
+		if err := cl.Connect(); err != nil {
+			res.Fail("harness-prior-connect", "prior connection (mechanisms %q) failed: %v", c.Prior, err)
+			return res
+		}
+		<-priorDone
+		if !waitFor(5*time.Second, func() bool { return rec.count(xmpp.StateDisconnected) >= 1 }) {
+			res.Fail("harness-prior-disconnect", "prior connection: no Disconnected event")
+			return res
+		}
+	}
+	if c.TLS {
+		res.Label("list-changes-across-starttls")
+	}
 	t0 := time.Now()
-	cerr := cl.Connect()
+	var cerr error
+	if c.Prior != nil {
+		cerr = cl.Resume()
+	} else {
+		cerr = cl.Connect()
+	}
 	connectTime := time.Since(t0)
 	var o *peer.Outcome
 	if cerr == nil {
@@ -144,7 +198,7 @@ func runC14(c c14Case) vh.Result {
 		}
 		// nothing may be written after the stream header
 		for _, st := range o.Steps {
-			if st != "open1" {
+			if st != "open1" && !(c.TLS && (st == "starttls" || st == "tls" || st == "open2")) {
 				res.Fail("request-without-common-mechanism", "client went on to step %s although no common mechanism exists (offered %q)", st, c.Mechs)
 			}
 		}
@@ -203,7 +257,7 @@ func isAlnum(s string) bool {
 
 var c14 = vh.Define(&vh.Def[c14Case]{
 	Property: "C14", Name: "sasl",
-	Rule: "local parts over everything NewJid accepts (ASCII, odd punctuation incl. & and NUL, non-ASCII, astral), secrets as arbitrary byte strings (alphanumeric, random bytes incl. invalid UTF-8, NUL-adjacent, XML metacharacters, all XML-legal text), password or token credential, server mechanism lists of 0-6 names drawn with repetition from known, unknown, wrong-case and empty names (with the matching mechanism inserted at a generated position in half of the cases), server reply success / failure (3 forms) / another element (8 forms); a real Client connects to the scripted peer over TCP; oracle on the peer transcript: mechanism == the one the credential supports and it was advertised, base64-decoded payload == NUL local NUL secret byte for byte; no common mechanism => nothing after the stream header and a permanent ConnError; <failure/> => permanent error; anything but <success/> => Connect fails; non-trivial = secret or local part not purely alphanumeric, or the mechanism list is not exactly [PLAIN]",
+	Rule: "local parts over everything NewJid accepts (ASCII, odd punctuation incl. & and NUL, non-ASCII, astral), secrets as arbitrary byte strings (alphanumeric, random bytes incl. invalid UTF-8, NUL-adjacent, XML metacharacters, all XML-legal text), password or token credential, server mechanism lists of 0-6 names drawn with repetition from known, unknown, wrong-case and empty names (with the matching mechanism inserted at a generated position in half of the cases), server reply success / failure (3 forms) / another element (8 forms); in a third of the cases the list differs before and after STARTTLS, or the same Client made an earlier successful connection against another list and reconnects; a real Client connects to the scripted peer over TCP; oracle on the peer transcript: mechanism == the one the credential supports and it was advertised, base64-decoded payload == NUL local NUL secret byte for byte; no common mechanism => nothing after the stream header and a permanent ConnError; <failure/> => permanent error; anything but <success/> => Connect fails; non-trivial = secret or local part not purely alphanumeric, or the mechanism list is not exactly [PLAIN]",
 	Quick: 3000, Thorough: 60000, Journal: true,
 	Gen: genC14, Run: runC14,
 })
